@@ -111,6 +111,11 @@ def perturb(c):
 
 
 POOL_EN = ['S[dcl]', 'S[X]', 'NP', 'NP[nb]', 'N', 'S\\NP', 'S[X]\\NP', 'NP/N']
+DEEP_EN = ['((S\\NP)/(S[to]\\NP[expl]))/NP', '(S[dcl]\\NP[thr])/PP', 'N/(S[b]\\NP)', '(S\\NP[nb])/((S\\NP)/PP)', '((S[dcl]\\NP)/NP)/(S[X]\\NP)']
+DEEP_JA = ['(S[mod=nm,form=base,fin=f]\\NP[case=ga,mod=nm,fin=f])/(S[mod=nm,form=cont,fin=f]\\NP[case=o,mod=nm,fin=f])',
+           '(S[mod=nm,form=base,fin=f]\\NP[case=ga,mod=nm,fin=f])\\NP[case=o,mod=nm,fin=f]',
+           'NP[case=nc,mod=nm,fin=f]/(S[mod=adn,form=base,fin=f]\\NP[case=ga,mod=nm,fin=f])',
+           '((S[mod=nm,form=base,fin=f]\\NP[case=ga,mod=nm,fin=f])/(S[mod=X1,form=X2,fin=X3]\\NP[case=ni,mod=nm,fin=f]))\\NP[case=o,mod=nm,fin=f]']
 POOL_JA = ['S[mod=nm,form=base,fin=f]', 'S[mod=X1,form=X2,fin=X3]', 'NP[case=ga,mod=nm,fin=f]', 'NP[case=X1,mod=X2,fin=f]',
            'S[mod=nm,form=base,fin=f]\\NP[case=ga,mod=nm,fin=f]']
 
@@ -144,6 +149,20 @@ def shard_fn(sh):
                         judge(st, px_s, py_s, PX, PY, x, y0, lang + '.inst')
                     for y in perturb(y0)[1:]:
                         judge(st, px_s, py_s, PX, PY, x0, y, lang + '.inst')
+        # deep pass: the shared variables range over categories with 3-5 atoms (left- and right-nested), the others over two atoms
+        deep = [K.P(c) for c in (DEEP_EN if lang == 'en' else DEEP_JA)]
+        shared = sorted({l.base for l in K.leaves(PX)} & {l.base for l in K.leaves(PY)})
+        others = [v for v in vars_ if v not in shared]
+        for dv in itertools.product(deep, repeat=len(shared)):
+            for ov in itertools.product(pool[:2], repeat=len(others)):
+                env = dict(zip(shared, dv))
+                env.update(zip(others, ov))
+                x0 = next(instantiate(PX, env))
+                y0 = next(instantiate(PY, env))
+                for x in perturb(x0):
+                    judge(st, px_s, py_s, PX, PY, x, y0, lang + '.deep')
+                for y in perturb(y0)[1:]:
+                    judge(st, px_s, py_s, PX, PY, x0, y, lang + '.deep')
     elif kind == 'bounded':
         _, pxs, tier = sh
         var_atoms = [K.Atom(v) for v in 'abc']
